@@ -9,9 +9,10 @@ Property theorems only (helpers: `Lemmas/VerifierW3C.lean`; `C13_normalize_encod
 `c.sub.cred.attrs` maps normalised attribute names to the encoded values the issuer signed,
 `c.sub.cred.key` is the signing key. `Encode.encode` is `encode_credential_attribute`.
 
-The pinned tree has `check_credential_subjects` (every subject entry is checked, not only the
-requested ones), so the earlier finding F6 ("subject values not in the proof ride along") does not
-apply to this model: `C03_w3c_subject` is proved in full.
+The tree has `check_credential_subjects` (fix commit "reject W3C presentations whose credential
+subject is not backed by the proof": every subject entry is checked, not only the requested ones),
+so finding F6 ("subject values not in the proof ride along") is closed and `C03_w3c_subject` is
+proved in full, for every entry of every credential.
 -/
 namespace AnonModel.VerifierW3C
 open AnonModel.Verifier AnonModel.IdealCL AnonModel
